@@ -2,11 +2,13 @@ import SafeC.Proofs.SortShape
 /-!
 # qsort_s model: the whole call returns and stays inside the array (every comparator)
 
-`smooth_safe` (Proofs/SortShape.lean) instantiated with the table built by `mkLp` and with what `pntz` really computes:
-the repaired `ntz` (whole 64-bit word) gives the distance to the next set bit of the two-word vector as long as that
-distance is not exactly 64 (`pntz` returns 0 for `p = {1, odd}`: its `r != 64` test cannot tell "bit 64 set" from
-"nothing set"), the `int` builtin as long as it is at most 32.  A distance of `d` between two consecutive tree orders
-first occurs with `leo (d + 1) + 1` elements, hence the bounds `leo 65` resp. `leo 34` on the element count.
+`smooth_safe` (Proofs/SortShape.lean) instantiated with the table built by `mkLp` and with what `pntz` really computes.
+With both repairs (`Fixes.ctz64`, `Fixes.pntzGap`) `pntz` is the distance to the next set bit of the two-word vector for
+every distance (`pntz_spec64`): `qsortMusl_safe`, no bound on the element count.  Without the `pntz` repair the repaired
+`ntz` is right as long as that distance is not exactly 64 (`pntz` returns 0 for `p = {1, odd}`: its `r != 64` test cannot
+tell "bit 64 set" from "nothing set"), the `int` builtin as long as it is at most 32.  A distance of `d` between two
+consecutive tree orders first occurs with `leo (d + 1) + 1` elements, hence the bounds `leo 65` resp. `leo 34` on the element
+count in `qsortMusl_safe_partial`.
 -/
 namespace SafeC.Sort
 
@@ -14,7 +16,7 @@ theorem leo_65 : leo 65 = 55555780070575 := by
   have h : (leoPair 65).1 = 55555780070575 := by decide +kernel
   rw [leoPair_eq] at h; exact h
 
-/-- largest element count for which every `pntz` call of the sort is right -/
+/-- largest element count for which every `pntz` call of the sort is right when `pntz` itself is not repaired -/
 def safeBound (fx : Fixes) : Nat := if fx.ctz64 then 55555780070575 else 18454929
 
 /-- the largest distance between consecutive orders `pntz` handles -/
@@ -41,14 +43,27 @@ theorem ctx_of (fx : Fixes) (c : Cmp α) (lp : Array Nat) (n K : Nat) (hlp : LpO
     cases hfx : fx.ctz64 with
     | true =>
       simp only [hfx, if_true] at htG
-      exact pntz_spec64 fx hfx p t h0 ht (by omega) hbt hmin
+      exact pntz_spec64_partial fx hfx p t h0 ht (by omega) hbt hmin
     | false =>
       simp only [hfx] at htG
       exact pntz_spec32 fx hfx p t h0 ht (by simpa using htG) hbt hmin
 
-/-- `qsort_musl(base, nel, width, …)` on an array of exactly `nel` elements: returns, size kept — every comparator -/
-theorem qsortMusl_safe (fx : Fixes) (c : Cmp α) (s : St α) (nel width : Nat) (hn : nel = s.a.size)
-    (h63 : nel * width ≤ 2 ^ 63) (h3 : 3 * width < 2 ^ 64) (hb : nel ≤ safeBound fx) :
+/-- both repairs: `pntz` is right for every distance, and every order is at most 95 (the table), so `G = 127` does -/
+theorem ctx_of_fixed (fx : Fixes) (hfx : fx.ctz64 = true) (hgap : fx.pntzGap = true) (c : Cmp α) (lp : Array Nat) (n K : Nat)
+    (hlp : LpOk lp K) (hK2 : 2 ≤ K) (hK95 : K ≤ 95) (hnK : n ≤ leo K) :
+    Ctx (⟨c.cmp, c.ctx, lp, fx, c.trace⟩ : Env α) n K 127 := by
+  refine ⟨hlp, fun o ho => leo_le_imp_le hK2 hnK ho, hK95, by omega, ?_, ?_⟩
+  · intro o ho
+    have := leo_le_imp_le hK2 hnK (show leo o ≤ n by omega)
+    omega
+  · intro p t h0 ht _ hbt hmin
+    exact pntz_spec64 fx hfx hgap p t h0 ht hbt hmin
+
+/-- `qsort_musl(base, nel, width, …)` on an array of exactly `nel` elements, given the standing facts for whatever table
+    `mkLp` builds: returns, size kept — every comparator -/
+theorem qsortMusl_safe_gen (fx : Fixes) (c : Cmp α) (s : St α) (nel width : Nat) (hn : nel = s.a.size)
+    (h63 : nel * width ≤ 2 ^ 63) (h3 : 3 * width < 2 ^ 64)
+    (hC : ∀ lp K, LpOk lp K → 2 ≤ K → K ≤ 95 → nel ≤ leo K → ∃ G, Ctx (⟨c.cmp, c.ctx, lp, fx, c.trace⟩ : Env α) nel K G) :
     Tot (qsortMusl fx c s nel width) (fun r => r.a.size = s.a.size) := by
   by_cases h0 : width = 0 ∨ nel = 0
   · unfold qsortMusl
@@ -61,7 +76,21 @@ theorem qsortMusl_safe (fx : Fixes) (c : Cmp α) (s : St α) (nel width : Nat) (
     obtain ⟨lp, K, hmk, _, hlp, hK2, hK95, hnK, _⟩ := mkLp_spec width nel hw hnel h63 h3
     refine Tot.bind (fun r => r = lp) ⟨lp, hmk, rfl⟩ (fun lp' hlp' => ?_)
     subst hlp'
-    have := smooth_safe _ (ctx_of fx c lp' nel K hlp hK2 hK95 hnK hb) s hn.symm hnel
+    obtain ⟨G, hCtx⟩ := hC lp' K hlp hK2 hK95 hnK
+    have := smooth_safe _ hCtx s hn.symm hnel
     exact this.imp (fun r hr => ⟨hr.1, by show r.a.size = s.a.size; rw [← hn]; exact hr.2⟩)
+
+/-- code without the `pntz` repair (either `ntz`): up to `safeBound fx` elements -/
+theorem qsortMusl_safe_partial (fx : Fixes) (c : Cmp α) (s : St α) (nel width : Nat) (hn : nel = s.a.size)
+    (h63 : nel * width ≤ 2 ^ 63) (h3 : 3 * width < 2 ^ 64) (hb : nel ≤ safeBound fx) :
+    Tot (qsortMusl fx c s nel width) (fun r => r.a.size = s.a.size) :=
+  qsortMusl_safe_gen fx c s nel width hn h63 h3 (fun lp K hlp hK2 hK95 hnK => ⟨_, ctx_of fx c lp nel K hlp hK2 hK95 hnK hb⟩)
+
+/-- both repairs: EVERY element count -/
+theorem qsortMusl_safe (fx : Fixes) (hfx : fx.ctz64 = true) (hgap : fx.pntzGap = true) (c : Cmp α) (s : St α) (nel width : Nat)
+    (hn : nel = s.a.size) (h63 : nel * width ≤ 2 ^ 63) (h3 : 3 * width < 2 ^ 64) :
+    Tot (qsortMusl fx c s nel width) (fun r => r.a.size = s.a.size) :=
+  qsortMusl_safe_gen fx c s nel width hn h63 h3
+    (fun lp K hlp hK2 hK95 hnK => ⟨_, ctx_of_fixed fx hfx hgap c lp nel K hlp hK2 hK95 hnK⟩)
 
 end SafeC.Sort
